@@ -13,7 +13,9 @@ StepText(s) == CASE s = "tail" -> ".tail()" [] s = "skip2" -> ".skip(2)" [] s = 
 RECURSIVE PipeText(_, _)
 PipeText(o, k) ==   \* text of steps 1..k applied to %e; a concat wraps what precedes it
   IF k = 0 THEN "%e"
-  ELSE IF o[k] = "concat" THEN "(" \o PipeText(o, k - 1) \o " & 'x')" ELSE PipeText(o, k - 1) \o StepText(o[k])
+  ELSE IF o[k] = "concat" THEN "(" \o PipeText(o, k - 1) \o " & 'x')"
+  ELSE IF o[k] = "proj" THEN "%two.select(" \o PipeText(o, k - 1) \o ")"
+  ELSE PipeText(o, k - 1) \o StepText(o[k])
 
 (* an always-true invariant whose evaluation emits the behaviour that reached the state *)
 Emitting ==
